@@ -61,9 +61,7 @@ def judge(a, b, qa, qb, formulas, private):
 
 def _same(cell, q):
   try:
-    if isinstance(cell, bool) != isinstance(q, bool):
-      return False
-    return cell == q
+    return cell == q            # Python equality, as set/list membership uses (True == 1)
   except Exception:
     return False
 
@@ -92,7 +90,7 @@ def replay(w):
 
 META = {
   "files": ["sandbox/grist/engine.py"],
-  "oracle": "rows == naive filter (cell among the requested values of every queried column, bool only equal to bool) in row id "
+  "oracle": "rows == naive filter (cell == one of the requested values of every queried column, Python equality) in row id "
             "order; columns per formulas flag; cell values equal the unfiltered fetch",
   "rule": "one evaluation = one (cell contents of two columns, query dict, flags) cube; non-trivial = a query was given",
   "bounds": {"cells A (Any)": CELLS_A, "cells B (Int)": CELLS_B, "query A": QA, "query B": QB, "rows": 3},
